@@ -434,6 +434,43 @@ theorem infer_size_complete (shape out : List Int) (numel : Int) (hw : Wellforme
     · exact absurd hcase.1 hc
     · rw [h', hcase.2.2.2, hnum, Int.mul_ediv_cancel _ h0, ← heq]
 
+/-- (d) agreement with torch's own rule, for every shape and every element count `numel ≥ 0`: `infer_size_impl`
+accepts exactly the calls `Tensor.view/reshape` accept and fills the placeholder with the same value (the two
+only differ in the exception raised: AssertionError / ZeroDivisionError vs RuntimeError). -/
+theorem infer_size_matches_torch (shape : List Int) (numel : Int) (hn : 0 ≤ numel) :
+    accepted (Gen.inferSizeImpl shape numel) = accepted (torchInfer shape numel) := by
+  rw [gen_eq_infer]
+  unfold infer torchInfer
+  cases hs : scan shape 0 (none, 1) with
+  | error e => simp [accepted, bind, Except.bind]
+  | ok st =>
+    rcases st with ⟨d, n⟩
+    have hnn : 0 ≤ n := by
+      rw [scan_none] at hs
+      by_cases hw : Wellformed shape
+      · simp only [hw, if_true, Except.ok.injEq, Prod.mk.injEq] at hs
+        have := others_nonneg shape hw.1
+        rw [← hs.2]; simpa using this
+      · simp [hw] at hs
+    simp only [bind, Except.bind, post]
+    have hmod : (n > 0 → (Int.fmod numel n = 0 ↔ numel % n = 0)) := by
+      intro hp; rw [Int.fmod_eq_emod_of_nonneg _ hnn]
+    have hdiv : Int.fdiv numel n = numel / n := Int.fdiv_eq_ediv_of_nonneg _ hnn
+    by_cases hc : numel = n ∨ (d.isSome = true ∧ n > 0 ∧ Int.fmod numel n = 0)
+    · have hc' : numel = n ∨ (d.isSome = true ∧ n > 0 ∧ numel % n = 0) := by
+        rcases hc with h | ⟨h1, h2, h3⟩
+        · exact .inl h
+        · exact .inr ⟨h1, h2, (hmod h2).1 h3⟩
+      simp only [hc, hc', not_true, if_false, if_true]
+      cases d with
+      | none => rfl
+      | some v => by_cases h0 : n = 0 <;> simp [h0, accepted, hdiv]
+    · have hc' : ¬ (numel = n ∨ (d.isSome = true ∧ n > 0 ∧ numel % n = 0)) := by
+        rintro (h | ⟨h1, h2, h3⟩)
+        · exact hc (.inl h)
+        · exact hc (.inr ⟨h1, h2, (hmod h2).2 h3⟩)
+      simp [hc, hc', accepted]
+
 /-- (c2) the `[-1, 0]`-with-`numel = 0` corner, exactly: Python's `0 // 0`. -/
 theorem infer_size_zero_division_iff (shape : List Int) (numel : Int) :
     Gen.inferSizeImpl shape numel = .error "ZeroDivisionError" ↔
